@@ -1,6 +1,7 @@
 import Drivers.Proto
 import St4sd.Model.FsAtomic
 import St4sd.Model.StatusFile
+import St4sd.Model.FsConc
 /-! Model driver for property C14.  Every text travels as a JSON array of code points (no
 dependence on JSON string escaping of control / non-BMP characters). -/
 open Lean Proto St4sd.FsAtomic St4sd.StatusFile
@@ -32,6 +33,23 @@ def parseOp (j : Json) : Except String Op := do
   | "remove" => return .remove (← getCps j "p")
   | _ => throw s!"unknown fs op {kind}"
 
+def parseEv (j : Json) : Except String St4sd.FsConc.Ev := do
+  let kind ← getStr j "k"
+  match kind with
+  | "create" => return .openW (← getNat j "w") (← getCps j "p")
+  | "append" => return .write (← getNat j "w") (← getCps j "b")
+  | "close" => return .close (← getNat j "w")
+  | "rename" => return .rename (← getCps j "a") (← getCps j "b")
+  | "remove" => return .remove (← getCps j "p")
+  | _ => throw s!"unknown event {kind}"
+
+def jev : St4sd.FsConc.Ev → Json
+  | .openW w p => jobj [("k", jstr "create"), ("w", jnat w), ("p", jcps p)]
+  | .write w b => jobj [("k", jstr "append"), ("w", jnat w), ("b", jcps b)]
+  | .close w => jobj [("k", jstr "close"), ("w", jnat w)]
+  | .rename a b => jobj [("k", jstr "rename"), ("a", jcps a), ("b", jcps b)]
+  | .remove p => jobj [("k", jstr "remove"), ("p", jcps p)]
+
 def initFs (files : List (Path × Content)) : Fs := fun q =>
   match files.find? (fun f => f.1 == q) with
   | some f => some f.2
@@ -50,6 +68,27 @@ def handle (j : Json) : Except String Json := do
                  ("old", jopt jcps (fs t)),
                  ("final", jopt jcps (run ops fs t)),
                  ("first_unsafe", jopt jnat (firstUnsafe ops fs t))]
+  | "ctrace" =>
+    -- interleaved trace of several writers (inode-level model)
+    let t ← getCps j "target"
+    let files ← getPairs j "files"
+    let evs ← (← getArr j "evs").mapM parseEv
+    let versions ← (← getArr j "versions").mapM asCps
+    let s0 := St4sd.FsConc.mkSt files
+    return jobj [("safe", jbool (St4sd.FsConc.concSafe t evs)),
+                 ("states", jarr ((St4sd.FsConc.crashStates evs s0 t).map (jopt jcps))),
+                 ("installed", jarr ((St4sd.FsConc.installedBy t evs).map jcps)),
+                 ("first_mixed", jopt jnat (St4sd.FsConc.firstMixed evs s0 t versions))]
+  | "sched" =>
+    -- the trace that `n` protocol-following updates produce under a schedule
+    let t ← getCps j "target"
+    let us ← (← getArr j "updates").mapM fun u => do
+      let tmp ← getCps u "tmp"
+      let chunks ← (← getArr u "chunks").mapM asCps
+      return (⟨tmp, chunks⟩ : St4sd.FsConc.Upd)
+    let sched ← getNatList j "sched"
+    let evs := St4sd.FsConc.interleave t us (fun _ => 0) sched
+    return jobj [("evs", jarr (evs.map jev)), ("safe", jbool (St4sd.FsConc.concSafe t evs))]
   | "escape" => return jobj [("out", jcps (escape (← getCps j "s")))]
   | "unescape" => return jobj [("out", jopt jcps (unescape (← getCps j "s")))]
   | "encode" => return jobj [("text", jcps (encode (← getPairs j "pairs")))]
